@@ -104,6 +104,19 @@ class MathSimplification:
             if stm.ast_type not in (ASTType.Rule, ASTType.Minimize):
                 ret.append(oldstm)
                 continue
+            # the value of an aggregate that is used inside the elements of an aggregate can not be eliminated
+            guard_vars: set[str] = set()
+            inner_vars: set[str] = set()
+            for blit in stm.body:
+                if blit.ast_type == ASTType.Literal and blit.atom.ast_type == ASTType.BodyAggregate:
+                    for guard in (blit.atom.left_guard, blit.atom.right_guard):
+                        if guard is not None:
+                            guard_vars.update(var.name for var in collect_ast(guard.term, "Variable"))
+                    for elem in blit.atom.elements:
+                        inner_vars.update(var.name for var in collect_ast(elem, "Variable"))
+            if guard_vars & inner_vars:
+                ret.append(oldstm)
+                continue
             gb = Goebner()
             newbody: list[AST] = []
             agg_conditions: dict[Sign, set[AST]] = defaultdict(set)
